@@ -40,11 +40,14 @@ def sortBlocks : List OptBlock → List OptBlock
   | [] => []
   | b :: r => insertBlock b (sortBlocks r)
 
-/-- (`server.Logs != nil`, `server.Logs.ShouldLogCredentials`) after `applyServerOptions` -/
-def applyOpts (blocks : List OptBlock) (s : Srv) : Bool × Bool :=
-  match firstBlock (sortBlocks blocks) s with
+/-- `applyServerOptions` given the option blocks in the order `sort.Slice` left them in -/
+def applyOptsOrder (order : List OptBlock) (s : Srv) : Bool × Bool :=
+  match firstBlock order s with
   | none => (s.hasLogs, false)
   | some b => if b.logCreds then (true, true) else (s.hasLogs, false)
+
+/-- (`server.Logs != nil`, `server.Logs.ShouldLogCredentials`) after `applyServerOptions` -/
+def applyOpts (blocks : List OptBlock) (s : Srv) : Bool × Bool := applyOptsOrder (sortBlocks blocks) s
 
 /-- `s.Logs != nil && s.Logs.ShouldLogCredentials` — what server.go, reverseproxy.go, fastcgi.go and
     push/handler.go compute -/
